@@ -15,6 +15,7 @@ package main
 //   per-line results: ";"-joined entries, "-" = no match, else <b.e+b.e...>:<p0.p1.p2.p3>
 
 import (
+	"github.com/junegunn/fzf/src/algo"
 	"fmt"
 	"math/rand"
 	"strings"
@@ -160,7 +161,9 @@ type atom struct {
 	text string
 }
 
-var patWords = []string{"aab", "aaab", "abab", "ababc", "1.1.1.2", "foo", "bar", "Foo", "BAR", "baz", "qux", "a", "b", "ab", "x y", "café", "Éa", "e", "naïve", "日本", "a-b", "f_o", "1", "42", "/", ".go", "src", "ǅ", "o'c", "x$y", "a^b", "a|b", "i!"}
+var patWords = []string{"aab", "aaab", "abab", "ababc", "1.1.1.2", "foo", "bar", "Foo", "BAR", "baz", "qux", "a", "b", "ab", "x y", "café", "Éa", "e", "naïve", "日本", "a-b", "f_o", "1", "42", "/", ".go", "src", "ǅ", "o'c", "x$y", "a^b", "a|b", "i!",
+	// capitals outside Latin-1 whose lower-case forms the normalisation table knows
+	"Łódź", "TOMÁŠ", "Čapek", "Žižka", "Ćma"}
 
 func renderAtom(a atom, fuzzy bool) string {
 	t := strings.ReplaceAll(a.text, " ", "\\ ")
@@ -224,6 +227,9 @@ func genAST(r *rand.Rand, lines []string) [][]atom {
 			}
 			if r.Intn(6) == 0 {
 				text = strings.ToUpper(text[:1]) + text[1:]
+			} else if r.Intn(4) == 0 {
+				// the accent-free lower-case spelling, as one types it
+				text = string(algo.NormalizeRunes([]rune(strings.ToLower(text))))
 			}
 			set = append(set, atom{"febpsq"[r.Intn(6)], r.Intn(4) == 0, text})
 		}
